@@ -102,7 +102,9 @@ func (g *Gen) getdagCases(o *Out, dir string, thorough bool) {
 	for _, ver := range []int{1, 2} {
 		strict := g.pick(3) == 0
 		implicit := len(roots) == 1 && g.pick(2) == 0
-		loads, werr := refWalk(have, d.root, strict)
+		// --version 1 goes through the root module's selective writer, which has no lenient mode: an
+		// absent block fails the command whatever --strict says
+		loads, werr := refWalk(have, d.root, strict || ver == 1)
 		g.prepOut(out)
 		args := []string{"get-dag", fmt.Sprintf("--version=%d", ver)}
 		if strict {
